@@ -37,6 +37,7 @@ def run_cases(cases, res, stratum):
                 continue
             side = c.get('side', 'right')
             if side == 'left' and c['y'] is None:
+                if c.get('mask_carrier') == 'np' and -2**63 <= y < 2**63: y = np.int64(y)      # the mask as a NumPy integer on the left
                 got = {'&': y & x, '|': y | x, '^': y ^ x}
             else:
                 got = {'&': x & y, '|': x | y, '^': x ^ y}
@@ -125,7 +126,7 @@ def shard(shard, nshards, rng, tier, extra):
                 for cx in range(lo, hi + 1):
                     for cy in range(ly, hy + 1):
                         cases.append({'x': [s, n, rng.randint(0, n)], 'cx': cx, 'y': [sy, n, rng.randint(0, n)], 'cy': cy})
-                    cases.append({'x': [s, n, rng.randint(0, n)], 'cx': cx, 'y': None, 'cy': rng.randint(-(1 << n), (1 << (n + 1))), 'side': rng.choice(['left', 'right'])})
+                    cases.append({'x': [s, n, rng.randint(0, n)], 'cx': cx, 'y': None, 'cy': rng.randint(-(1 << n), (1 << (n + 1))), 'side': rng.choice(['left', 'right']), 'mask_carrier': rng.choice(['py', 'np'])})
     run_cases(cases, res, 'A:all-code-pairs-small')
     cases = []
     for _ in range((2500 if tier == 'quick' else 60000) // nshards):
